@@ -40,6 +40,9 @@ def run_one(cs, tc, cat, df, addr, head27, hc):
     m = frames.tohex(frames.df17(addr, me, ca=head27 & 7, df=df), 112, hc)
     if head27 & 8:
         variants.prelude(pms, m)   # helpers on the same string, and other message types of the same aircraft, decoded first
+    if head27 & 32:
+        variants.damaged_calls(pms.adsb.callsign, m)
+        variants.damaged_calls(pms.adsb.category, m)
     r = call(pms.adsb.callsign, m)
     if r != ("ok", exp):
         return "adsb.callsign(%s) -> %r, encoded %r" % (m, r, exp)
